@@ -25,7 +25,9 @@ def refine_mechanism(cls: str, v: Dict[str, Any]) -> str:
     if ("invalid enum member name" in d or "member order does not match _order_" in d or re.search(r"input_value='(_ignore_|_order_|_missing_|_generate_next_value_|mro)'", d)
             or re.search(r"has no attribute '(_ignore_|_order_|_missing_|_generate_next_value_)'", d)):  # the value never became a member, so a default naming it cannot resolve
         return "enum-value-reserved-by-python-enum"
-    if cls == "names.underscore_digit" and (re.search(r"Cannot parse.*\n\s+[0-9]", d, re.S) or "illegal target for annotation" in d or "invalid decimal literal" in d):
+    m_line = re.search(r"Cannot parse: \d+:\d+\n([^\n]*)", d)  # black quotes the line it could not parse
+    digit_led = bool(m_line and re.search(r"(?<![\w.'\"\[])\d\w*\s*(:|=[^=])", m_line.group(1)))  # a name position (parameter, annotated target) holding a token that starts with a digit
+    if cls == "names.underscore_digit" and (re.search(r"Cannot parse.*\n\s+[0-9]", d, re.S) or digit_led or "illegal target for annotation" in d or "invalid decimal literal" in d):
         return "name-leading-underscore-then-digit"  # the generated module is not Python because a name starts with a digit
     case_text = str((v.get("case") or {}).get("_queries", "")) + str((v.get("case") or {}).get("_sdl", ""))
     if cls == "names.dunder_like" and ("typename__" in d or "__typename" in d) and re.search(r"\btypename__\b\s*[:(]", case_text):  # the input really uses the literal name typename__ and the witness is about it
